@@ -3,7 +3,7 @@ Message layer (`S4V.Model.Syslines`): the theorems over a well-formed line list.
 
 The supporting development is split over
 `SyslBasic` (filters, `WFLines`, `lineAt`, `linesFrom_wf`),
-`SyslFind` (`partA`/`partB`/`findSysline_eq`), `SyslPart` (partition),
+`SyslFind` (`slPartA`/`slPartB`/`findSysline_eq`), `SyslPart` (partition),
 `SyslSearch` (`lsearch`, `bsearch`), `SyslStream` (`between`, `streamAll`).
 This file states the results directly over `WFLines ls`.
 -/
